@@ -1,13 +1,160 @@
 /-
-  Driver/Diag — command(s) of the `diag` family (stub: filled in by the owner of the corresponding properties).
+  Driver/Diag — command `diag` (property C19): evaluate `Model/Diagram.diagRun` on a JSON description.
+
+  in : {"cmd":"diag", "name": str, "group": bool,
+        "comps": [{"name","kind","group"}…]            -- attrs["nodes"] insertion order
+        "edges": [[parent, child]…],
+        "config": {"graph": [[k,v]…]|null, "cluster": [[name,[[k,v]…]]…]|null, "node": …|null,
+                   "edge": [[k,v]…]|null, "other": [str…]},        -- `{}` = all null, no other keys
+        "heat": null | {"rows":[str…], "phases":[[name,num]…], "loss":[[num…]…]}}
+  out: {"ok":true, "graph":{…}, "heat":[{"name","loss","mix"}…]|null, "maxloss": "n/d"|null, "config_after":{…}}
+     | {"ok":false, "err":{"cls","detail"}, "config_after":{…}}
+  Every node and edge endpoint also carries `rid`, the identifier Graphviz ends up with (`renderedId`, F23).
+  Anything malformed answers `bad-op`.
 -/
 import SysLoss.Driver.Wire
+import SysLoss.Model.Diagram
 
 open Lean
 
 namespace SysLoss
+open Diagram
+
+namespace DiagWire
+
+def strArr? (j : Json) : Except String (List String) :=
+  match j with
+  | .arr a => a.toList.mapM fun x => match x with | .str s => .ok s | _ => .error "string expected"
+  | _ => .error "array of strings expected"
+
+def attrs? (j : Json) : Except String Attrs :=
+  match j with
+  | .arr a => a.toList.mapM fun p =>
+      match p with
+      | .arr #[.str k, .str v] => .ok (k, v)
+      | _ => .error "attribute pair [str, str] expected"
+  | _ => .error "attribute list expected"
+
+def sect? (j : Json) : Except String Sect :=
+  match j with
+  | .arr a => a.toList.mapM fun p =>
+      match p with
+      | .arr #[.str k, v] => (attrs? v).map fun d => (k, d)
+      | _ => .error "section entry [str, attrs] expected"
+  | _ => .error "section expected"
+
+def optField (j : Json) (k : String) (f : Json → Except String β) : Except String (Option β) :=
+  match j.getObjVal? k with
+  | .ok .null => .ok none
+  | .ok v => (f v).map some
+  | .error _ => .error ("missing field " ++ k)
+
+def config? (j : Json) : Except String Config := do
+  let g ← optField j "graph" attrs?
+  let c ← optField j "cluster" sect?
+  let n ← optField j "node" sect?
+  let e ← optField j "edge" attrs?
+  let o ← match j.getObjVal? "other" with
+    | .ok v => strArr? v
+    | .error _ => .error "missing field other"
+  pure { graph := g, cluster := c, node := n, edge := e, other := o }
+
+def comp? (j : Json) : Except String CompIn :=
+  match j.getObjValAs? String "name", j.getObjValAs? String "kind", j.getObjValAs? String "group" with
+  | .ok n, .ok k, .ok g =>
+    match kindOf k with
+    | some kd => .ok { name := n, kind := kd, group := g }
+    | none => .error ("bad kind " ++ k)
+  | _, _, _ => .error "component {name, kind, group} expected"
+
+def edge? (j : Json) : Except String (String × String) :=
+  match j with
+  | .arr #[.str a, .str b] => .ok (a, b)
+  | _ => .error "edge [str, str] expected"
+
+def rat? (j : Json) : Except String Rat :=
+  match (numOf j : Option Rat) with
+  | some x => .ok x
+  | none => .error "number expected"
+
+def heat? (j : Json) : Except String (HeatIn Rat) := do
+  let rows ← match j.getObjVal? "rows" with | .ok v => strArr? v | .error _ => .error "missing rows"
+  let phases ← match j.getObjVal? "phases" with
+    | .ok (.arr a) => a.toList.mapM fun p =>
+        match p with
+        | .arr #[.str k, v] => (rat? v).map fun x => (k, x)
+        | _ => .error "phase [str, num] expected"
+    | _ => .error "missing phases"
+  let loss ← match j.getObjVal? "loss" with
+    | .ok (.arr a) => a.toList.mapM fun l =>
+        match l with
+        | .arr b => b.toList.mapM rat?
+        | _ => .error "loss list expected"
+    | _ => .error "missing loss"
+  pure { rows := rows, phases := phases, loss := loss }
+
+def attrsOut (d : Attrs) : Json := .arr (d.map fun kv => .arr #[.str kv.1, .str kv.2]).toArray
+def sectOut (s : Sect) : Json := .arr (s.map fun kv => .arr #[.str kv.1, attrsOut kv.2]).toArray
+def optOutJ (f : β → Json) : Option β → Json | some x => f x | none => .null
+
+def configOut (c : Config) : Json :=
+  Json.mkObj [("graph", optOutJ attrsOut c.graph), ("cluster", optOutJ sectOut c.cluster),
+              ("node", optOutJ sectOut c.node), ("edge", optOutJ attrsOut c.edge),
+              ("other", .arr (c.other.map Json.str).toArray)]
+
+def nodeOut (n : DNode) : Json :=
+  Json.mkObj [("name", n.name), ("rid", renderedId n.name), ("attrs", attrsOut n.attrs)]
+
+def graphOut (d : DotGraph) : Json :=
+  Json.mkObj [
+    ("name", d.name), ("attrs", attrsOut d.attrs),
+    ("clusters", .arr (d.clusters.map fun c =>
+        Json.mkObj [("name", c.name), ("label", c.label), ("attrs", attrsOut c.attrs),
+                    ("nodes", .arr (c.nodes.map nodeOut).toArray)]).toArray),
+    ("nodes", .arr (d.nodes.map nodeOut).toArray),
+    ("scale", optOutJ nodeOut d.scale),
+    ("edges", .arr (d.edges.map fun e =>
+        Json.mkObj [("src", e.src), ("dst", e.dst), ("rsrc", renderedId e.src), ("rdst", renderedId e.dst),
+                    ("attrs", attrsOut e.attrs)]).toArray)]
+
+def ratOut (q : Rat) : Json := Json.str (toString q.num ++ "/" ++ toString q.den)
+
+def run (j : Json) : Except String Json := do
+  let name ← match j.getObjValAs? String "name" with | .ok s => pure s | .error _ => throw "missing name"
+  let group ← match j.getObjValAs? Bool "group" with | .ok b => pure b | .error _ => throw "missing group"
+  let comps ← match j.getObjVal? "comps" with
+    | .ok (.arr a) => a.toList.mapM comp?
+    | _ => throw "missing comps"
+  let edges ← match j.getObjVal? "edges" with
+    | .ok (.arr a) => a.toList.mapM edge?
+    | _ => throw "missing edges"
+  let cfg ← match j.getObjVal? "config" with
+    | .ok v => config? v
+    | .error _ => throw "missing config"
+  let heat ← optField j "heat" heat?
+  let (res, after) := diagRun name comps edges cfg group heat
+  match res with
+  | .error e => pure (Json.mkObj [("ok", false), ("err", errOut e), ("config_after", configOut after)])
+  | .ok d =>
+    let hrows : Json := match heat with
+      | none => .null
+      | some h => .arr ((prepLoss h).map fun r =>
+          Json.mkObj [("name", r.name), ("loss", ratOut r.loss), ("mix", ratOut r.mix),
+                      ("nice", niceFloat r.loss)]).toArray
+    let mx : Json := match heat with
+      | none => .null
+      | some h => ratOut (maxOf (heatLosses h))
+    pure (Json.mkObj [("ok", true), ("graph", graphOut d), ("heat", hrows), ("maxloss", mx),
+                      ("config_after", configOut after)])
+
+end DiagWire
 
 def cmdDiag (j : Json) : Json :=
-  Json.mkObj [("bad-op", "unimplemented: " ++ jStr j "cmd")]
+  match jStr j "cmd" with
+  | "diag" =>
+    (match DiagWire.run j with
+     | .ok r => r
+     | .error m => Json.mkObj [("bad-op", "diag: " ++ m)])
+  | c => Json.mkObj [("bad-op", "unknown diag command: " ++ c)]
 
 end SysLoss
